@@ -396,6 +396,53 @@ void World::opMkColl(const Step &s, bool useMax)
 }
 
 // ----------------------------------------------------------------------
+// mkgraph: a sparse random transition relation (explicit state pairs, about
+// one to two per state, plus at most one pattern minterm) in a boolean
+// relation forest.  The collection builders above mostly give near-empty or
+// near-complete relations, on which reachability and images are trivial.
+// a[0] forest, a[1] density selector
+// ----------------------------------------------------------------------
+void World::opMkGraph(const Step &s)
+{
+    cur_family = "construct";
+    int fi = pickForest(s.a[0], [](const ForRT &F) { return F.kind() == FK_MTB && F.spec.rel; });
+    if (fi < 0) { note(OC_SKIP); return; }
+    ForRT &F = forests[fi];
+    const Dom &D = doms[F.spec.dom].m;
+    Rng R(s.seed);
+    const unsigned m = 1 + unsigned(R.below(uint64_t(D.N * (1 + s.a[1] % 2)))) + unsigned(D.N / 2);
+    EdgeSlot* res = newEdge(s.client, fi);
+    res->tab = Table::constant(D, true, Val::b(false));
+    desc << en(*res) << " = random graph with " << m << " explicit transitions in " << fn(fi);
+    if (tracing) { fprintf(stderr, "   doing: %s\n", desc.str().c_str()); fflush(stderr); }
+    try {
+        minterm_coll mc(m + 1, F.f);
+        for (unsigned i = 0; i < m; i++) {
+            const long x = long(R.below(uint64_t(D.N))), y = long(R.below(uint64_t(D.N)));
+            res->tab.v[size_t(x * D.N + y)] = Val::b(true);
+            fillMinterm(F, mc.unused(), x, y);
+            mc.unused().setValue(rangeval(true));
+            mc.pushUnused();
+        }
+        if (R.chance(1, 3)) {
+            SymMT sm;
+            genSym(R, D, true, sm, 30, 50);
+            for (long x = 0; x < D.N; x++) for (long y = 0; y < D.N; y++)
+                if (symMatches(D, true, sm, x, y)) res->tab.v[size_t(x * D.N + y)] = Val::b(true);
+            symToMinterm(F, sm, mc.unused());
+            mc.unused().setValue(rangeval(true));
+            mc.pushUnused();
+        }
+        mc.buildFunctionMax(rangeval(false), *res->e);
+    }
+    catch (MEDDLY::error &e) {
+        failNow("X1", cur_family, std::string("building a random graph threw ") + e.getName());
+        return;
+    }
+    finishResult(s, res, cur_family);
+}
+
+// ----------------------------------------------------------------------
 // bin: a[0] BinOp, a[1] operand A, a[2] operand B, a[3] result forest,
 // a[4] flags (1: result in A's forest, 2: B from A's forest kind,
 // 4: result overwrites operand A's slot edge)
